@@ -85,11 +85,27 @@ Definition de_names (s : list mrec * list N) : option (list mrec) :=
   end.
 
 Definition file_write_names := file_write_gen (list mrec * list N) ser_names.
-Definition file_rt_names := file_rt_gen (list mrec * list N) ser_names de_names.
+
+(* one-line switch: flip to [true] when the writer of /repo refuses a ByteArrayStop value that
+   holds its stop byte with InvalidInput (/tmp/C07/fixes/09 or 10; known classes
+   cram-read-name-with-nul-byte-shifts-names, cram-clip-or-insertion-base-nul-byte-cuts-feature).
+   The positive theorems hold for both values; the *_refuted theorems and the NUL examples of
+   props/C07.v are about [false] and must then be replaced by "the writer answers InvalidInput". *)
+Definition stop_byte_refused : bool := false.
+
+Definition has_nul (o : option (list N)) : bool :=
+  match o with Some s => existsb (N.eqb 0) s | None => false end.
+Definition stream_has_nul (ss : list samrec) : bool := existsb (fun s => has_nul (s_name s)) ss.
+
+Definition file_rt_names (refs : list (list N)) (rps : nat) (ss : list samrec) : mres :=
+  if stop_byte_refused && stream_has_nul ss then MWriteErr
+  else file_rt_gen (list mrec * list N) ser_names de_names refs rps ss.
 
 (* the RN block of every slice of the file *)
 Definition file_name_blocks (refs : list (list N)) (rps : nat) (ss : list samrec)
   : option (list (list N)) :=
+  if stop_byte_refused && stream_has_nul ss then None
+  else
   match file_write_names refs rps ss with
   | None => None
   | Some f => Some (map snd f)
